@@ -501,7 +501,7 @@ func permutations(n int) [][]int {
 // ---------------------------------------------------------------- C19
 
 func checkC19(rep *Report, rng *Rng, tier string) {
-	n := 100
+	n := 70
 	if tier == "thorough" {
 		n = 500 // every history costs ~50 model evaluations on file images (exact read lists, runs with flushes)
 	}
@@ -724,7 +724,7 @@ func init() {
 		seqStep := func(w *World, op Op, got string) *Mismatch {
 			if op.K == "reopen" && op.H == 0 {
 				seqOn, seqLines, seqName, seqNamed = false, nil, "", false
-				if img := w.File.Bytes(); int64(len(img)) == w.IO.DurableEnd && len(img) > 0 && len(img) <= 30000 {
+				if img := w.File.Bytes(); int64(len(img)) == w.IO.DurableEnd && len(img) > 0 && len(img) <= 14000 {
 					seqOn, seqImg = true, img
 				}
 				return nil
